@@ -11,7 +11,8 @@ SPEC = {
             "byte patterns, IPv4-mapped addresses of every IPv4 class, same address with other flags); random static lists incl. one equal "
             "to the chosen address; listing failure / unprepared. config driver: every sequence of length <= 3 / <= 4 over 15 server "
             "strings (:: in two spellings, one address in two spellings, IPv4, IPv4-mapped, garbage, a prefix, a zoned address), omitted list, random lists "
-            "up to 12 servers; each accepted plugin is applied to an address list. Non-trivial = at least two listed addresses / servers "
+            "up to 12 servers; each accepted (parser-produced) plugin value is applied 2..4 times to an address list and every result must be the option "
+            "of the plugin as parsed (the plugin driver applies each plugin twice). Non-trivial = at least two listed addresses / servers "
             "or a failing source; distinct by canonical input.",
     "nontrivial": lambda c: len(c.get("input", {}).get("addrs") or []) >= 2 or len(c.get("input", {}).get("servers") or []) >= 2
                             or c.get("input", {}).get("source") not in (None, "ok"),
